@@ -214,3 +214,27 @@ def zset_reread(gen):
                          [b"ZADD", k, b"INCR", b"3", rng.choice([b"a", b"b"])]]
     rr = lambda k: [[b"ZRANGE", k, b"0", b"-1", b"WITHSCORES"], [b"ZRANK", k, b"a"]]
     return Reread(gen, {n: (ch, rr) for n in (b"zrange", b"zrank")})
+
+
+# --- int64 boundary grid (added after the seeded change C10-hincrby-minint-sum: an overflow test that is wrong for exactly one pair of operands) -------------
+_EDGE = [b"-9223372036854775808", b"-9223372036854775807", b"-4611686018427387904", b"-2", b"-1", b"0", b"1", b"2",
+         b"4611686018427387904", b"9223372036854775806", b"9223372036854775807"]
+
+
+def arith_grid(family):
+    """every pair (stored value, operand) of the int64 edge values through the counter commands of one family, each in a fresh keyspace with a full dump after it:
+    the result is the exact sum or the command is refused and the stored value is untouched"""
+    from . import execgen
+    lines = []
+    for a in _EDGE:
+        for b in _EDGE:
+            if family == "string":
+                for op in (b"INCRBY", b"DECRBY"):
+                    lines += ["R", execgen.render([b"SET", b"c", a], [b"c"]), execgen.render([op, b"c", b], [b"c"], full=True)]
+            else:
+                lines += ["R", execgen.render([b"HSET", b"h", b"n", a], [b"h"]), execgen.render([b"HINCRBY", b"h", b"n", b], [b"h"], full=True),
+                          execgen.render([b"HGET", b"h", b"n"], [b"h"])]
+        if family == "string":
+            for op in (b"INCR", b"DECR"):
+                lines += ["R", execgen.render([b"SET", b"c", a], [b"c"]), execgen.render([op, b"c"], [b"c"], full=True)]
+    return lines
